@@ -20,6 +20,11 @@ G = "parser::gene_to_hpo::"
 O = "parser::hp_obo::"
 
 
+def once_chain(body):
+    """the body cuts its text with two or more `str::split_once` calls (one column at a time)"""
+    return len([1 for _, t in body.calls() if t.callee.method == "split_once" and "str" in (t.callee.name or "")]) >= 2
+
+
 def run(ck, prog, ctx):
     ck.rule("KIND", "prefix / variant / annotate agreement (DESIGN 3.3)")
     ck.rule("DOM", "NOT qualifier never reaches a record (DESIGN 3.6)")
@@ -243,6 +248,9 @@ def run(ck, prog, ctx):
                     c = set()
                     for x in t.args:
                         c |= columns_of(pc, pvn.of_operand(pc, x), cols)
+                    if not c and once_chain(pc):
+                        ck.undecided("ROLE", "hpoa/qualifier-column", "the row is taken apart column by column with `split_once('\\t')`: column numbers are not read off that form", where=pc.where(t.line))
+                        continue
                     ck.ob("ROLE", "hpoa/qualifier-column", c == {2}, "the qualifier compared with `NOT` is column %s (expected 2)" % sorted(c), where=pc.where(t.line))
         cols = split_columns(pc, pvn)
         if cols.get("incomplete"):
@@ -253,6 +261,9 @@ def run(ck, prog, ctx):
                 for f, o in zip(s.rv["fields"], s.rv["ops"]):
                     at = pvn.of_operand(pc, o)
                     m[f] = (columns_of(pc, at, cols), any(a[0] == "call" and a[1].endswith("split_once") and any(e == ("f", "1", "tuple") or (e[0] == "f" and e[1] == "1") for e in a[5]) for a in at))
+                if not any(m.get(k, (set(),))[0] for k in ("id", "name", "hpo_id")) and once_chain(pc):
+                    ck.undecided("ROLE", "hpoa/columns", "the row is taken apart column by column with `split_once('\\t')`: column numbers are not read off that form", where=pc.where(s.line))
+                    continue
                 ck.ob("ROLE", "hpoa/columns", m.get("id", (None,))[0] == {0} and m.get("name", (None,))[0] == {1} and m.get("hpo_id", (None,))[0] == {3},
                       "DiseaseComponents{id<-col %s, name<-col %s, hpo_id<-col %s} (expected 0, 1, 3)" % tuple(sorted(m.get(k, (set(),))[0]) for k in ("id", "name", "hpo_id")), where=pc.where(s.line))
                 ck.ob("ROLE", "hpoa/id-after-colon", bool(m.get("id", (None, False))[1]), "the disease id is the part of column 0 after ':'", where=pc.where(s.line))
@@ -271,10 +282,11 @@ def run(ck, prog, ctx):
         for bi, t in sp[:1]:
             m = t.callee.method
             pat = None
-            if m in ("split", "splitn", "rsplit", "rsplitn", "split_terminator", "split_inclusive"):
+            if m in ("split", "splitn", "rsplit", "rsplitn", "split_terminator", "split_inclusive", "split_once"):
                 a = t.args[-1]
                 pat = a.const["val"] if a.kind == "const" else const_str_of(lb_, pvn, a)
-            ok = m in ("split", "splitn") and pat in ("'\\t'", "\t", '"\\t"', "'\t'")
+            # (`split_once('\\t')` taken column by column cuts at the same separator; WHICH column a value then is, is the ROLE rules' question)
+            ok = m in ("split", "splitn", "split_once") and pat in ("'\\t'", "\t", '"\\t"', "'\t'")
             if not ok and m in ("split", "splitn") and (pat is None or re.search(r"::|^[A-Z_][A-Z0-9_]*$", str(pat))):
                 ck.undecided("TABLE", "separator/%s" % lb_.name, "the separator handed to %s() in %s is not a literal (%s)" % (m, lb_.short, pat), where=lb_.where(t.line))
                 continue
